@@ -6,9 +6,12 @@ import (
 	"bytes"
 	"context"
 	"encoding/binary"
+	"encoding/json"
 	"errors"
 	"fmt"
 	"io"
+	"os"
+	"path/filepath"
 	"runtime"
 	"sort"
 	"strings"
@@ -588,3 +591,197 @@ func TestVerifC10DuplicateSend(t *testing.T) {
 }
 
 var _ = bytes.Equal
+
+// ---- C10 with a real OS process as the client (the --client command path: runCommand, os/exec pipes) ----
+
+type vfC10ProcCase struct {
+	N         int `json:"n"`         // requests the runner wants to send, one after the other
+	ExitAfter int `json:"exitAfter"` // the client exits after this many requests (-1: runs to the end of its input)
+	ExitCode  int `json:"exitCode"`
+	Garbage   int `json:"garbage"` // the n-th answer is garbage (0: never)
+}
+
+func vfC10ProcCheck(c vfC10ProcCase) error {
+	dir, err := os.MkdirTemp(".", "c10proc")
+	if err != nil {
+		return nil
+	}
+	dir, _ = filepath.Abs(dir)
+	defer os.RemoveAll(dir)
+	script := vfClientScript{Expected: map[string][]byte{}, Actions: map[string]string{}, ExitAfter: c.ExitAfter, ExitCode: c.ExitCode, Garbage: c.Garbage, Order: "immediate"}
+	for i := 0; i < c.N; i++ {
+		data, _ := proto.Marshal(&conformancev1.ClientResponseResult{Payloads: []*conformancev1.ConformancePayload{{Data: []byte(fmt.Sprintf("answer-for-%d", i))}}})
+		script.Expected[vfC10Name(i)] = data
+	}
+	scriptFile, logFile := filepath.Join(dir, "script.json"), filepath.Join(dir, "peer.log")
+	data, _ := json.Marshal(script)
+	_ = os.WriteFile(scriptFile, data, 0o644)
+	type attempt struct {
+		sendErr   error
+		callbacks []vfC10CB
+	}
+	attempts := make([]*attempt, c.N)
+	var mu sync.Mutex
+	var waitErr error
+	var stillRunning bool
+	done := make(chan struct{})
+	var harnessErr error
+	go func() {
+		defer close(done)
+		runner, err := runClient(context.Background(), runCommand(vfPeerCommand("script-client", scriptFile, logFile)))
+		if err != nil {
+			harnessErr = err
+			return
+		}
+		for i := 0; i < c.N; i++ {
+			a := &attempt{}
+			mu.Lock()
+			attempts[i] = a
+			mu.Unlock()
+			err := runner.sendRequest(&conformancev1.ClientCompatRequest{TestName: vfC10Name(i)}, func(name string, resp *conformancev1.ClientCompatResponse, err error) {
+				mu.Lock()
+				a.callbacks = append(a.callbacks, vfC10CB{name, resp, err})
+				mu.Unlock()
+			})
+			mu.Lock()
+			a.sendErr = err
+			mu.Unlock()
+			// the real runner does not write faster than a client can exit
+			time.Sleep(15 * time.Millisecond)
+		}
+		runner.closeSend()
+		waitErr = runner.waitForResponses()
+		deadline := time.Now().Add(2 * time.Second)
+		for runner.isRunning() && time.Now().Before(deadline) {
+			time.Sleep(5 * time.Millisecond)
+		}
+		stillRunning = runner.isRunning()
+		runner.stop()
+	}()
+	describe := func() string {
+		mu.Lock()
+		defer mu.Unlock()
+		var sb strings.Builder
+		for i, a := range attempts {
+			if a == nil {
+				fmt.Fprintf(&sb, "  request %d: not offered yet\n", i)
+				continue
+			}
+			fmt.Fprintf(&sb, "  request %d: send=%v callbacks=%d", i, a.sendErr, len(a.callbacks))
+			for _, cb := range a.callbacks {
+				fmt.Fprintf(&sb, " [resp=%v err=%v]", cb.resp != nil, cb.err)
+			}
+			sb.WriteString("\n")
+		}
+		return sb.String()
+	}
+	// the slowest legitimate path is the runner's own 20 s wait for an answer that never comes plus the
+	// graceful-shutdown escalation of a process that has to be killed
+	select {
+	case <-done:
+	case <-time.After(50 * time.Second):
+		return verifkit.Violf("process-client-deadlock", "sending to / waiting for a client process that %s did not finish within 50s\n%s", vfC10ProcFate(c), describe())
+	}
+	if harnessErr != nil {
+		return nil
+	}
+	answered := c.N
+	if c.ExitAfter >= 0 && c.ExitAfter < answered {
+		answered = c.ExitAfter
+	}
+	fatal := c.Garbage > 0 && c.Garbage <= answered
+	if fatal {
+		answered = c.Garbage - 1
+	}
+	for i, a := range attempts {
+		if a.sendErr != nil {
+			if len(a.callbacks) != 0 {
+				return verifkit.Violf("process-callback-after-send-error", "request %d: send failed (%v) but its callback fired %d time(s)\n%s", i, a.sendErr, len(a.callbacks), describe())
+			}
+			if i < answered {
+				return verifkit.Violf("process-send-refused-early", "request %d was refused (%v) although the client was still going to answer %d requests\n%s", i, a.sendErr, answered, describe())
+			}
+			continue
+		}
+		if len(a.callbacks) != 1 {
+			return verifkit.Violf("process-callback-count", "request %d was accepted but its callback fired %d time(s), want exactly 1 (client %s)\n%s", i, len(a.callbacks), vfC10ProcFate(c), describe())
+		}
+		cb := a.callbacks[0]
+		switch {
+		case i < answered:
+			if cb.err != nil || cb.resp.GetTestName() != vfC10Name(i) || string(cb.resp.GetResponse().GetPayloads()[0].GetData()) != fmt.Sprintf("answer-for-%d", i) {
+				return verifkit.Violf("process-lost-answer", "request %d was answered by the client but the callback got resp=%v err=%v\n%s", i, cb.resp, cb.err, describe())
+			}
+		default:
+			if cb.err == nil {
+				return verifkit.Violf("process-phantom-success", "request %d was never answered (client %s) but completed successfully\n%s", i, vfC10ProcFate(c), describe())
+			}
+		}
+	}
+	if stillRunning {
+		return verifkit.Violf("process-still-running", "isRunning() is still true after the client process (%s) is gone\n%s", vfC10ProcFate(c), describe())
+	}
+	if (fatal || c.ExitCode != 0) && waitErr == nil {
+		return verifkit.Violf("process-fault-not-reported", "client %s but waitForResponses returned nil\n%s", vfC10ProcFate(c), describe())
+	}
+	return nil
+}
+
+func vfC10ProcFate(c vfC10ProcCase) string {
+	s := "runs to the end of its input"
+	if c.ExitAfter >= 0 {
+		s = fmt.Sprintf("exits with status %d after %d of %d requests", c.ExitCode, c.ExitAfter, c.N)
+	}
+	if c.Garbage > 0 {
+		s += fmt.Sprintf(", answer %d is garbage", c.Garbage)
+	}
+	return s
+}
+
+func TestVerifC10Process(t *testing.T) {
+	en := verifkit.NewEnum(t, "C10Process")
+	var replay vfC10ProcCase
+	if en.ReplayCase(&replay) {
+		if err := verifkit.SafeCall(func() error { return vfC10ProcCheck(replay) }); err != nil {
+			en.Fail(replay, err)
+		}
+		en.Done(false)
+		return
+	}
+	var rows []vfC10ProcCase
+	for _, n := range []int{1, 4} {
+		rows = append(rows, vfC10ProcCase{N: n, ExitAfter: -1})
+		for k := 0; k <= n; k++ {
+			for _, code := range []int{0, 1} {
+				rows = append(rows, vfC10ProcCase{N: n, ExitAfter: k, ExitCode: code})
+			}
+		}
+		for g := 1; g <= n; g += 2 {
+			rows = append(rows, vfC10ProcCase{N: n, ExitAfter: -1, Garbage: g})
+		}
+	}
+	shard, shards := verifkit.Shard()
+	var mu sync.Mutex
+	var wg sync.WaitGroup
+	sem := make(chan struct{}, 6)
+	for i, c := range rows {
+		if i%shards != shard {
+			continue
+		}
+		wg.Add(1)
+		sem <- struct{}{}
+		go func(c vfC10ProcCase) {
+			defer wg.Done()
+			defer func() { <-sem }()
+			err := verifkit.SafeCall(func() error { return vfC10ProcCheck(c) })
+			mu.Lock()
+			defer mu.Unlock()
+			en.Rec.Observe(c, []string{fmt.Sprintf("exits-early:%v", c.ExitAfter >= 0 && c.ExitAfter < c.N), fmt.Sprintf("garbage:%v", c.Garbage > 0)}, c.ExitAfter >= 0 && c.ExitAfter < c.N || c.Garbage > 0)
+			if err != nil {
+				en.Fail(c, err)
+			}
+		}(c)
+	}
+	wg.Wait()
+	en.Done(true)
+}
